@@ -1469,3 +1469,136 @@ func checkConnectionInputWiring(c *Ctx, rule string) {
 	}
 	c.Info(rule, "wiring-sites", "api/graphql/resolvers", fmt.Sprintf("%d field stores, %d helper arguments", nStores, nCalls))
 }
+
+// R16.17: a test for an error type tests a type errors are made of.
+func checkErrorAssertionsLive(c *Ctx, rule string) {
+	w := c.W
+	c.Doc(rule, "module-wide: every type assertion of an error value to a concrete type declared in the module names a type that some function of the module converts to an interface (T where the module makes &T-errors, or *T where it makes T-errors, can never match) — a dead assertion silently disables the branch that handles that error, e.g. the importer's refusal to go on when an identity look-up reports several matches")
+	made := map[string]bool{}
+	for _, f := range w.ModFns {
+		if w.isTestHelper(f) {
+			continue
+		}
+		for _, b := range f.Blocks {
+			for _, ins := range b.Instrs {
+				if mi, ok := ins.(*ssa.MakeInterface); ok {
+					made[types.TypeString(mi.X.Type(), nil)] = true
+				}
+			}
+		}
+	}
+	errT := types.Universe.Lookup("error").Type().Underlying().(*types.Interface)
+	n := 0
+	for _, f := range w.ModFns {
+		if isInstance(f) || w.isTestHelper(f) {
+			continue
+		}
+		for _, b := range f.Blocks {
+			for _, ins := range b.Instrs {
+				ta, ok := ins.(*ssa.TypeAssert)
+				if !ok {
+					continue
+				}
+				xi, isI := ta.X.Type().Underlying().(*types.Interface)
+				if !isI || !types.Identical(xi, errT) {
+					continue
+				}
+				at := ta.AssertedType
+				if _, isIface := at.Underlying().(*types.Interface); isIface {
+					continue
+				}
+				base := at
+				if p, isP := base.(*types.Pointer); isP {
+					base = p.Elem()
+				}
+				nt, isN := base.(*types.Named)
+				if !isN || nt.Obj().Pkg() == nil || !strings.HasPrefix(nt.Obj().Pkg().Path(), modPath) {
+					continue
+				}
+				n++
+				c.Sites++
+				c.seeFn(funcName(f))
+				ts := types.TypeString(at, nil)
+				c.Check(made[ts], rule, funcName(f)+":"+typeShortName(at), w.InstrPos(ta), "errors of this dynamic type are made in the module",
+					"the error is tested for the dynamic type "+typeShortName(at)+", which no function of the module ever makes an error of (the module makes "+map[bool]string{true: "pointers to it", false: "values of another form"}[made["*"+ts]]+"): the test never succeeds and the branch handling that error is dead")
+			}
+		}
+	}
+	if n < 3 {
+		c.Violate(rule, "expected:error-type-assertions", "module", fmt.Sprintf("%d assertions of errors to module types (reference >= 3)", n))
+	}
+}
+
+// R11.13: the excerpt table loses an entry only when the entity is removed.
+func checkExcerptsDeletedOnlyByRemoval(c *Ctx, rule string) {
+	w := c.W
+	c.Doc(rule, "package cache: every delete on a SubCache's excerpts table sits in SubCache.Remove / RemoveAll or in a helper whose every caller (transitively, static calls within the package) is one of those — eviction, merging, notifications and queries never shrink the population that prefix resolution, comment resolution and queries scan; an entity that exists in git stays addressable")
+	callers := map[*ssa.Function][]*ssa.Function{}
+	var holders []*ssa.Function
+	for _, f := range w.ModFns {
+		if w.isTestHelper(f) || fnPkgPath(f) != modPath+"/cache" {
+			continue
+		}
+		fb := bodyOf(f)
+		if fb != f {
+			continue
+		}
+		has := false
+		for _, b := range f.Blocks {
+			for _, ins := range b.Instrs {
+				if deleteOf("excerpts")(ins) {
+					has = true
+				}
+				if ci, ok := ins.(ssa.CallInstruction); ok {
+					if cal := ci.Common().StaticCallee(); cal != nil {
+						if cb := bodyOf(cal); cb != nil && fnPkgPath(cb) == modPath+"/cache" {
+							callers[cb] = append(callers[cb], f)
+						}
+					}
+				}
+			}
+		}
+		if has {
+			holders = append(holders, f)
+		}
+	}
+	var allowed func(f *ssa.Function, seen map[*ssa.Function]bool) (bool, string)
+	allowed = func(f *ssa.Function, seen map[*ssa.Function]bool) (bool, string) {
+		root := f
+		for root.Parent() != nil {
+			root = root.Parent()
+		}
+		if n := funcName(root); strings.HasSuffix(n, "SubCache.Remove") || strings.HasSuffix(n, "SubCache.RemoveAll") {
+			return true, ""
+		}
+		if seen[f] {
+			return true, ""
+		}
+		seen[f] = true
+		cs := callers[f]
+		if root != f {
+			cs = append(cs, callers[root]...)
+		}
+		if len(cs) == 0 {
+			return false, funcName(root)
+		}
+		for _, cf := range cs {
+			if ok, via := allowed(cf, seen); !ok {
+				return false, via
+			}
+		}
+		return true, ""
+	}
+	n := 0
+	for _, f := range holders {
+		n++
+		c.Sites++
+		c.seeFn(funcName(f))
+		ok, via := allowed(f, map[*ssa.Function]bool{})
+		c.Check(ok, rule, funcName(f)+":excerpts-shrink-only-on-removal", w.FnPos(f), "reached from Remove / RemoveAll only",
+			"an excerpt is deleted on a path that starts in "+via+", which does not remove the entity: the entity still exists in git but no prefix of its id resolves any more, its comments cannot be addressed, queries no longer list it — and the truncated table is written to the cache file")
+	}
+	if n == 0 {
+		c.Violate(rule, "expected:excerpt-deletions", "cache", "no deletion from an excerpts table found (reference: Remove, RemoveAll)")
+	}
+}
